@@ -101,8 +101,10 @@ def fit_predict(case, e, n, data, qe, qn, extra=None, qextra=None):
     est = build.make_estimator(spec_for(case["gridder"], case))
     coords = (e, n) + (tuple(extra) if extra else ())
     d = tuple(data[:2]) if ncomp(case) == 2 else data[0]
-    quiet(est.fit, coords, d)
-    pred = est.predict((qe, qn) + (tuple(qextra) if qextra else ()))
+    # a quarter of the cases hand the coordinates over as one stacked (n_coordinates, ...) array, the form in which longitude_continuity returns them
+    flag = build.stack_flag(case)
+    quiet(est.fit, build.maybe_stack(coords, flag), d)
+    pred = est.predict(build.maybe_stack((qe, qn) + (tuple(qextra) if qextra else ()), flag))
     return pred if isinstance(pred, tuple) else (pred,)
 
 
